@@ -644,12 +644,15 @@ impl<C: HCfg> Node<C> {
     fn post_call(&mut self, ni: usize, cx: &mut Ctx) {
         let ck = cx.scn.checks;
         let Sess::P(s) = &self.sess else { return };
-        let conf = s.confirmed_frame();
+        let api_conf = s.confirmed_frame();
         let cur = s.current_frame();
-        if ck & CK_FINALITY != 0 && conf < self.prev_conf {
-            cx.v("C03", "confirmed-frame-decreased", ni, format!("confirmed_frame() went from {} to {conf}", self.prev_conf));
+        if ck & CK_FINALITY != 0 && api_conf < self.prev_conf {
+            cx.v("C03", "confirmed-frame-decreased", ni, format!("confirmed_frame() went from {} to {api_conf}", self.prev_conf));
         }
-        self.prev_conf = self.prev_conf.max(conf);
+        self.prev_conf = self.prev_conf.max(api_conf);
+        // "frames whose inputs from all connected players have reached the peer": from the
+        // connection-status accessor, independent of confirmed_frame()
+        let conf = s.verif_connect_status().iter().filter(|c| !c.0).map(|c| c.1).min().unwrap_or(api_conf).max(api_conf.min(cur - 1));
         let upto = conf.min(cur - 1).min(self.tr.sims.len() as i32 - 1);
         if ck & (CK_C01 | CK_FINALITY) != 0 {
             let mut to_check: Vec<i32> = self.resim.iter().copied().filter(|f| *f <= upto).collect();
